@@ -1,19 +1,738 @@
-//! Engine `cache` — not built yet (stub).
+//! Engine `cache` (C12): the real `PageCache` and a real `Pager` on a scratch file against the Lean model
+//! (`Model/Cache.lean`, `Model/Config.lean`), plus the configuration-grid mode through the public SQL API.
+//!
+//! Case kinds (one per line):
+//!   seq <cap> | op ; op ; …            bare PageCache; ops: ins p v d | get p | pin p | unpin k | hread k | hwrite k v |
+//!                                       hdirty k | evict | rm p | clear | drain | setcap n | stat
+//!   pgr <cap> <page size> | op ; …     Pager::from_config on a scratch file; ops: alloc | read p | write p v | pin p |
+//!                                       unpin k | hread k | hwrite k v | flush | reopen | disk p
+//!   cfg <page> <cache> <pool> <min keys> <siblings>    DBConfig::new / builder / page-zero header
+//!   grid <workload seed> <statements> <configs>        one SQL workload under a grid of configurations
+//! Output: the per-op answers joined by " ; ".
 use super::{Case, Engine, Tier};
 use crate::rng::Rng;
+use axmosdb::verif::cache as vc;
+use axmosdb::verif::cache::{VCache, VFrame, VPager};
+use std::io::{ErrorKind, Read, Seek, SeekFrom};
+use std::sync::atomic::{AtomicU64, Ordering};
 
 pub struct CacheEngine;
 
-impl Engine for CacheEngine {
-    fn gen_cases(&self, _rng: &mut Rng, _tier: Tier) -> Vec<Case> {
-        Vec::new()
+const SEQ_PAGE_SIZE: usize = 4096;
+
+fn val_of(f: &VFrame) -> u64 {
+    u64::from_le_bytes(f.read_payload(8).try_into().unwrap())
+}
+
+fn show_frame(f: &VFrame) -> String {
+    format!("{}:{}:{}", f.page_number(), val_of(f), if f.is_dirty() { 1 } else { 0 })
+}
+
+fn num(s: &str) -> Option<u64> {
+    if s.len() > 19 || s.is_empty() || !s.bytes().all(|b| b.is_ascii_digit()) {
+        return None;
     }
-    fn exec(&mut self, _line: &str) -> String {
-        "unimplemented".into()
+    s.parse().ok()
+}
+
+fn split_ops<'a>(ws: &[&'a str]) -> Vec<Vec<&'a str>> {
+    let mut out = Vec::new();
+    let mut cur = Vec::new();
+    for w in ws {
+        if *w == ";" {
+            out.push(std::mem::take(&mut cur));
+        } else {
+            cur.push(*w);
+        }
+    }
+    if !cur.is_empty() {
+        out.push(cur);
+    }
+    out
+}
+
+// ------------------------------------------------------------------------------------------------ seq
+
+#[derive(Clone, Debug)]
+enum COp {
+    Ins(u64, u64, bool),
+    Get(u64),
+    Pin(u64),
+    Unpin(u64),
+    Hread(u64),
+    Hwrite(u64, u64),
+    Hdirty(u64),
+    Evict,
+    Rm(u64),
+    Clear,
+    Drain,
+    Setcap(u64),
+    Stat,
+}
+
+fn parse_cop(ws: &[&str]) -> Option<COp> {
+    Some(match ws {
+        ["ins", p, v, d] => COp::Ins(
+            num(p)?,
+            num(v)?,
+            match *d {
+                "0" => false,
+                "1" => true,
+                _ => return None,
+            },
+        ),
+        ["get", p] => COp::Get(num(p)?),
+        ["pin", p] => COp::Pin(num(p)?),
+        ["unpin", k] => COp::Unpin(num(k)?),
+        ["hread", k] => COp::Hread(num(k)?),
+        ["hwrite", k, v] => COp::Hwrite(num(k)?, num(v)?),
+        ["hdirty", k] => COp::Hdirty(num(k)?),
+        ["evict"] => COp::Evict,
+        ["rm", p] => COp::Rm(num(p)?),
+        ["clear"] => COp::Clear,
+        ["drain"] => COp::Drain,
+        ["setcap", n] => COp::Setcap(num(n)?),
+        ["stat"] => COp::Stat,
+        _ => return None,
+    })
+}
+
+fn is_oom(e: &std::io::Error) -> bool {
+    e.kind() == ErrorKind::OutOfMemory
+}
+
+fn exec_seq(cap: u64, ops: &[COp]) -> String {
+    let mut cache = VCache::with_capacity(cap as usize);
+    let mut handles: Vec<(u64, VFrame)> = Vec::new();
+    let mut next_hid = 0u64;
+    let mut outs: Vec<String> = Vec::with_capacity(ops.len());
+    for op in ops {
+        let o = match op {
+            COp::Ins(p, v, d) => {
+                let f = vc::new_frame(*p, SEQ_PAGE_SIZE, &v.to_le_bytes(), false);
+                if *d {
+                    f.mark_dirty();
+                }
+                let before = cache.num_frames();
+                match cache.insert(f) {
+                    Err(e) if is_oom(&e) => "oom".to_string(),
+                    Err(_) => "io".to_string(),
+                    Ok(Some(ev)) => format!("ins ev={}", show_frame(&ev)),
+                    Ok(None) => {
+                        if cache.num_frames() == before {
+                            "rep".to_string()
+                        } else {
+                            "ins -".to_string()
+                        }
+                    }
+                }
+            }
+            COp::Get(p) => match cache.get(*p) {
+                Some(f) => format!("hit {} {}", val_of(&f), if f.is_dirty() { 1 } else { 0 }),
+                None => "miss".to_string(),
+            },
+            COp::Pin(p) => match cache.get(*p) {
+                Some(f) => {
+                    let k = next_hid;
+                    next_hid += 1;
+                    handles.push((k, f));
+                    format!("h{}", k)
+                }
+                None => "miss".to_string(),
+            },
+            COp::Unpin(k) => match handles.iter().position(|h| h.0 == *k) {
+                Some(i) => {
+                    handles.remove(i);
+                    "ok".to_string()
+                }
+                None => "nohandle".to_string(),
+            },
+            COp::Hread(k) => match handles.iter().find(|h| h.0 == *k) {
+                Some((_, f)) => format!("val {} {}", val_of(f), if f.is_dirty() { 1 } else { 0 }),
+                None => "nohandle".to_string(),
+            },
+            COp::Hwrite(k, v) => match handles.iter().find(|h| h.0 == *k) {
+                Some((_, f)) => {
+                    f.mark_dirty();
+                    f.write_payload(&v.to_le_bytes());
+                    "ok".to_string()
+                }
+                None => "nohandle".to_string(),
+            },
+            COp::Hdirty(k) => match handles.iter().find(|h| h.0 == *k) {
+                Some((_, f)) => {
+                    f.mark_dirty();
+                    "ok".to_string()
+                }
+                None => "nohandle".to_string(),
+            },
+            COp::Evict => match cache.evict() {
+                Err(e) if is_oom(&e) => "oom".to_string(),
+                Err(_) => "io".to_string(),
+                Ok(None) => "none".to_string(),
+                Ok(Some(ev)) => format!("ev={}", show_frame(&ev)),
+            },
+            COp::Rm(p) => match cache.remove(*p) {
+                Some(f) => format!("rm {} n={}", show_frame(&f), cache.num_frames()),
+                None => format!("rm - n={}", cache.num_frames()),
+            },
+            COp::Clear => {
+                let fs = cache.clear();
+                let l: Vec<String> = fs.iter().map(show_frame).collect();
+                format!("clear [{}]", l.join(","))
+            }
+            COp::Drain => {
+                let fs = cache.drain();
+                let l: Vec<String> = fs.iter().map(show_frame).collect();
+                format!("drain [{}]", l.join(","))
+            }
+            COp::Setcap(n) => {
+                cache.set_capacity(*n as usize);
+                "ok".to_string()
+            }
+            COp::Stat => format!("cap={} n={}", cache.capacity(), cache.num_frames()),
+        };
+        outs.push(o);
+    }
+    let (h, m, e) = cache.stats();
+    format!("{} ## hits={} misses={} evictions={}", outs.join(" ; "), h, m, e)
+}
+
+// ------------------------------------------------------------------------------------------------ pgr
+
+#[derive(Clone, Debug)]
+enum POp {
+    Alloc,
+    Read(u64),
+    Write(u64, u64),
+    Pin(u64),
+    Unpin(u64),
+    Hread(u64),
+    Hwrite(u64, u64),
+    Flush,
+    Reopen,
+    Disk(u64),
+}
+
+fn parse_pop(ws: &[&str]) -> Option<POp> {
+    Some(match ws {
+        ["alloc"] => POp::Alloc,
+        ["read", p] => POp::Read(num(p)?),
+        ["write", p, v] => POp::Write(num(p)?, num(v)?),
+        ["pin", p] => POp::Pin(num(p)?),
+        ["unpin", k] => POp::Unpin(num(k)?),
+        ["hread", k] => POp::Hread(num(k)?),
+        ["hwrite", k, v] => POp::Hwrite(num(k)?, num(v)?),
+        ["flush"] => POp::Flush,
+        ["reopen"] => POp::Reopen,
+        ["disk", p] => {
+            let p = num(p)?;
+            if p == 0 {
+                return None;
+            }
+            POp::Disk(p)
+        }
+        _ => return None,
+    })
+}
+
+static SCRATCH_COUNTER: AtomicU64 = AtomicU64::new(0);
+
+/// A scratch directory removed on drop.
+pub struct Scratch(pub std::path::PathBuf);
+impl Scratch {
+    pub fn new(tag: &str) -> Scratch {
+        let n = SCRATCH_COUNTER.fetch_add(1, Ordering::SeqCst);
+        let base = std::env::var("AXH_SCRATCH").map(std::path::PathBuf::from).unwrap_or_else(|_| std::env::temp_dir());
+        let p = base.join(format!("axh-{}-{}-{}", tag, std::process::id(), n));
+        let _ = std::fs::remove_dir_all(&p);
+        std::fs::create_dir_all(&p).expect("scratch dir");
+        Scratch(p)
+    }
+}
+impl Drop for Scratch {
+    fn drop(&mut self) {
+        let _ = std::fs::remove_dir_all(&self.0);
+    }
+}
+
+fn err_class(e: &std::io::Error) -> String {
+    if is_oom(e) { "oom".into() } else { "io".into() }
+}
+
+fn disk_value(path: &std::path::Path, page: u64, page_size: u64) -> Option<u64> {
+    let mut f = std::fs::File::open(path).ok()?;
+    let len = f.metadata().ok()?.len();
+    if (page + 1) * page_size > len {
+        return None;
+    }
+    f.seek(SeekFrom::Start(page * page_size + vc::PAYLOAD_OFFSET as u64)).ok()?;
+    let mut b = [0u8; 8];
+    f.read_exact(&mut b).ok()?;
+    Some(u64::from_le_bytes(b))
+}
+
+fn exec_pgr(cap: u64, ps: u64, ops: &[POp]) -> String {
+    let dir = Scratch::new("pgr");
+    let path = dir.0.join("c12.db");
+    let cfg = axmosdb::DBConfig::new(ps as usize, cap as usize, 1, 3, 2);
+    let mut pager = match VPager::create(&path, cfg) {
+        Ok(p) => Some(p),
+        Err(_) => return "create-failed".into(),
+    };
+    let mut handles: Vec<(u64, VFrame)> = Vec::new();
+    let mut next_hid = 0u64;
+    let mut outs: Vec<String> = Vec::with_capacity(ops.len());
+    // Page ids are handed out sequentially. An id consumed by an allocation that failed never reached its caller (nor the
+    // cache, nor the file): such pages are not referred to afterwards.
+    let mut next_id = 1u64;
+    let mut lost: Vec<u64> = Vec::new();
+    for op in ops {
+        let pg = pager.as_mut().unwrap();
+        if let POp::Read(p) | POp::Write(p, _) | POp::Pin(p) | POp::Disk(p) = op {
+            if lost.contains(p) {
+                outs.push("lost".into());
+                continue;
+            }
+        }
+        let o = match op {
+            POp::Alloc => {
+                let r = pg.alloc();
+                let id = next_id;
+                next_id += 1;
+                match r {
+                    Ok(got) if got == id => format!("a{}", got),
+                    Ok(got) => format!("a{} PROPFAIL expected-id={}", got, id),
+                    Err(e) => {
+                        lost.push(id);
+                        err_class(&e)
+                    }
+                }
+            }
+            POp::Read(p) => match pg.read_payload(*p, 8) {
+                Ok(b) => format!("r{}", u64::from_le_bytes(b.try_into().unwrap())),
+                Err(e) => err_class(&e),
+            },
+            POp::Write(p, v) => match pg.write(*p, &v.to_le_bytes()) {
+                Ok(()) => "ok".into(),
+                Err(e) => err_class(&e),
+            },
+            POp::Pin(p) => match pg.read(*p) {
+                Ok(f) => {
+                    let k = next_hid;
+                    next_hid += 1;
+                    handles.push((k, f));
+                    format!("h{}", k)
+                }
+                Err(e) => err_class(&e),
+            },
+            POp::Unpin(k) => match handles.iter().position(|h| h.0 == *k) {
+                Some(i) => {
+                    handles.remove(i);
+                    "ok".into()
+                }
+                None => "nohandle".into(),
+            },
+            POp::Hread(k) => match handles.iter().find(|h| h.0 == *k) {
+                Some((_, f)) => format!("r{}", val_of(f)),
+                None => "nohandle".into(),
+            },
+            POp::Hwrite(k, v) => match handles.iter().find(|h| h.0 == *k) {
+                Some((_, f)) => {
+                    f.mark_dirty();
+                    f.write_payload(&v.to_le_bytes());
+                    "ok".into()
+                }
+                None => "nohandle".into(),
+            },
+            POp::Flush => match pg.flush() {
+                Ok(()) => "ok".into(),
+                Err(e) => err_class(&e),
+            },
+            POp::Reopen => match pg.flush() {
+                Err(e) => err_class(&e),
+                Ok(()) => {
+                    drop(pager.take()); // releases the file lock
+                    match VPager::open(&path) {
+                        Ok(p) => {
+                            pager = Some(p);
+                            "ok".into()
+                        }
+                        Err(_) => return format!("{} ; open-failed", outs.join(" ; ")),
+                    }
+                }
+            },
+            POp::Disk(p) => match disk_value(&path, *p, ps) {
+                Some(v) => format!("d{}", v),
+                None => "eof".into(),
+            },
+        };
+        outs.push(o);
+    }
+    let hc = pager.as_ref().unwrap().header_config();
+    drop(handles);
+    drop(pager);
+    format!("{} ## total_pages={}", outs.join(" ; "), hc.total_pages)
+}
+
+// ------------------------------------------------------------------------------------------------ cfg
+
+fn exec_cfg(a: u64, b: u64, c: u64, d: u64, e: u64) -> String {
+    let show = |x: [usize; 5]| format!("{},{},{},{},{}", x[0], x[1], x[2], x[3], x[4]);
+    let n = vc::config_new(a as usize, b as usize, c as usize, d as usize, e as usize);
+    let bl = vc::config_builder(a as usize, b as usize, c as usize, d as usize, e as usize);
+    let mut out = format!("new={} bld={}", show(n), show(bl));
+    if b <= 1_000_000 {
+        // the header as written by Pager::from_config and as read back by Pager::open
+        let dir = Scratch::new("cfg");
+        let path = dir.0.join("c12.db");
+        let cfg = axmosdb::DBConfig::new(a as usize, b as usize, c as usize, d as usize, e as usize);
+        let h1 = match VPager::create(&path, cfg) {
+            Ok(p) => p.header_config(),
+            Err(_) => return "create-failed".into(),
+        };
+        let h2 = match VPager::open(&path) {
+            Ok(p) => p.header_config(),
+            Err(_) => return "open-failed".into(),
+        };
+        out.push_str(&format!(" hdr={},{},{},{}", h1.page_size, h1.cache_size, h1.min_keys, h1.num_siblings_per_side));
+        if h1 != h2 {
+            out.push_str(" PROPFAIL header-differs-after-open");
+        }
+    }
+    out
+}
+
+// ------------------------------------------------------------------------------------------------ generators
+
+fn gen_seq(rng: &mut Rng) -> String {
+    let cap = match rng.below(10) {
+        0 => 0,
+        1 | 2 => 1,
+        3 | 4 => rng.range(2, 4) as u64,
+        5 | 6 | 7 => rng.range(5, 16) as u64,
+        _ => rng.range(17, 64) as u64,
+    };
+    let n_ops = rng.range(4, 30) as usize + if rng.chance(1, 3) { rng.range(20, 120) as usize } else { 0 };
+    let pages = (cap.max(1) * rng.range(1, 3) as u64 + rng.below(4)).max(2);
+    // op mix: a profile per case so that some cases are pin-heavy (OOM), some clear-heavy, …
+    let pin_w = *rng.pick(&[1u64, 3, 8, 16]);
+    let unpin_w = *rng.pick(&[1u64, 3, 8]);
+    let clear_w = *rng.pick(&[0u64, 1, 1, 3]);
+    let rm_w = *rng.pick(&[0u64, 1, 2]);
+    let setcap_w = *rng.pick(&[0u64, 0, 0, 1]);
+    let mut ops: Vec<String> = Vec::new();
+    let mut pins = 0u64;
+    for _ in 0..n_ops {
+        let total = 12 + 5 + pin_w + unpin_w + 3 + 3 + 1 + 2 + rm_w + clear_w + setcap_w + 1;
+        let mut r = rng.below(total);
+        let mut take = |w: u64| {
+            if r < w {
+                true
+            } else {
+                r -= w;
+                false
+            }
+        };
+        let p = 1 + rng.below(pages);
+        let extra = if rng.chance(1, 8) { 1 } else { 0 };
+        let k = if pins == 0 { 0 } else { rng.below(pins + extra) };
+        let v = if rng.chance(1, 20) { rng.next_u64() >> 1 } else { rng.below(1000) };
+        let op = if take(12) {
+            format!("ins {} {} {}", p, v, rng.below(2))
+        } else if take(5) {
+            format!("get {}", p)
+        } else if take(pin_w) {
+            pins += 1;
+            format!("pin {}", p)
+        } else if take(unpin_w) {
+            format!("unpin {}", k)
+        } else if take(3) {
+            format!("hread {}", k)
+        } else if take(3) {
+            format!("hwrite {} {}", k, v)
+        } else if take(1) {
+            format!("hdirty {}", k)
+        } else if take(2) {
+            "evict".to_string()
+        } else if take(rm_w) {
+            format!("rm {}", p)
+        } else if take(clear_w) {
+            if rng.chance(1, 4) { "drain".to_string() } else { "clear".to_string() }
+        } else if take(setcap_w) {
+            format!("setcap {}", rng.below(cap + 4))
+        } else {
+            "stat".to_string()
+        };
+        ops.push(op);
+    }
+    format!("seq {} | {}", cap, ops.join(" ; "))
+}
+
+fn gen_pgr(rng: &mut Rng) -> String {
+    let cap = match rng.below(10) {
+        0 | 1 => 1,
+        2 | 3 | 4 => rng.range(2, 4) as u64,
+        5 | 6 | 7 => rng.range(5, 16) as u64,
+        _ => rng.range(17, 64) as u64,
+    };
+    let ps = if rng.chance(3, 4) { 4096 } else { *rng.pick(&[8192u64, 16384, 32768, 65536]) };
+    let n_alloc = (cap * rng.range(1, 3) as u64 + rng.below(4)).clamp(2, 90);
+    let n_ops = rng.range(6, 40) as usize + if rng.chance(1, 3) { rng.range(20, 100) as usize } else { 0 };
+    let pin_w = *rng.pick(&[0u64, 1, 3, 8]);
+    let unpin_w = *rng.pick(&[1u64, 3, 8]);
+    let flush_w = *rng.pick(&[0u64, 1, 1, 2]);
+    let reopen_w = *rng.pick(&[0u64, 0, 1]);
+    // flushing while frames are pinned detaches them; keep that out of most cases
+    let flush_pinned_ok = rng.chance(1, 4);
+    let mut ops: Vec<String> = Vec::new();
+    let mut allocated = 0u64;
+    let mut pins = 0u64;
+    let mut live: Vec<u64> = Vec::new();
+    for _ in 0..n_ops {
+        if allocated < n_alloc && (allocated < 2 || rng.chance(2, 5)) {
+            allocated += 1;
+            ops.push("alloc".into());
+            continue;
+        }
+        let total = 8 + 8 + pin_w + unpin_w + 2 + 3 + flush_w + reopen_w + 3;
+        let mut r = rng.below(total);
+        let mut take = |w: u64| {
+            if r < w {
+                true
+            } else {
+                r -= w;
+                false
+            }
+        };
+        let p = if rng.chance(1, 25) { rng.below(allocated + 3) } else { 1 + rng.below(allocated.max(1)) };
+        let extra = if rng.chance(1, 8) { 1 } else { 0 };
+        let k = if pins == 0 { 0 } else { rng.below(pins + extra) };
+        let v = if rng.chance(1, 20) { rng.next_u64() >> 1 } else { 1 + rng.below(1000) };
+        let op = if take(8) {
+            format!("read {}", p)
+        } else if take(8) {
+            format!("write {} {}", p, v)
+        } else if take(pin_w) {
+            live.push(pins);
+            pins += 1;
+            format!("pin {}", p)
+        } else if take(unpin_w) {
+            live.retain(|h| *h != k);
+            format!("unpin {}", k)
+        } else if take(2) {
+            format!("hread {}", k)
+        } else if take(3) {
+            format!("hwrite {} {}", k, v)
+        } else if take(flush_w + reopen_w) {
+            if !flush_pinned_ok {
+                for h in live.drain(..) {
+                    ops.push(format!("unpin {}", h));
+                }
+            }
+            if rng.below(flush_w + reopen_w) < flush_w { "flush".to_string() } else { "reopen".to_string() }
+        } else {
+            format!("disk {}", p.max(1))
+        };
+        ops.push(op);
+    }
+    // every case ends by reading everything back, through the cache and (after a checkpoint) from the file
+    if rng.chance(1, 2) {
+        if !flush_pinned_ok {
+            for h in live.drain(..) {
+                ops.push(format!("unpin {}", h));
+            }
+        }
+        ops.push("flush".into());
+        for p in 1..=allocated {
+            ops.push(format!("disk {}", p));
+        }
+    }
+    for p in 1..=allocated {
+        ops.push(format!("read {}", p));
+    }
+    format!("pgr {} {} | {}", cap, ps, ops.join(" ; "))
+}
+
+fn gen_cfg(rng: &mut Rng) -> String {
+    let page = match rng.below(8) {
+        0 => rng.below(5000),
+        1 => *rng.pick(&[0u64, 1, 4095, 4096, 4097, 8191, 8192, 8193, 65535, 65536, 65537, 1 << 20, 1 << 40]),
+        2 => 1u64 << rng.below(63),
+        3 => (1u64 << rng.below(62)) + 1,
+        _ => rng.below(140_000),
+    };
+    let cache = match rng.below(8) {
+        0 => *rng.pick(&[0u64, 1, 48, 128, 1024, 10000, 65535, 65536, 65537, 100_000]),
+        1 => rng.below(1 << 40),
+        _ => rng.below(200_000),
+    };
+    let pool = rng.below(12);
+    let mk = if rng.chance(1, 5) { rng.below(1000) } else { rng.below(12) };
+    let sib = if rng.chance(1, 5) { rng.below(1000) } else { rng.below(8) };
+    format!("cfg {} {} {} {} {}", page, cache, pool, mk, sib)
+}
+
+fn tags_of(line: &str, out: &str) -> Vec<String> {
+    let mut tags: Vec<String> = Vec::new();
+    let ws: Vec<&str> = line.split(' ').collect();
+    let kind = ws[0];
+    tags.push(kind.to_string());
+    let g = out.split(" ## ").next().unwrap_or("");
+    match kind {
+        "seq" | "pgr" => {
+            let cap: u64 = ws[1].parse().unwrap_or(0);
+            tags.push(
+                match cap {
+                    0 => "cap0",
+                    1 => "cap1",
+                    2..=4 => "cap2-4",
+                    5..=16 => "cap5-16",
+                    _ => "cap17-64",
+                }
+                .to_string(),
+            );
+            if kind == "pgr" && ws[2] != "4096" {
+                tags.push("bigpage".into());
+            }
+            let body = line.split(" | ").nth(1).unwrap_or("");
+            let mut kinds: Vec<&str> = body.split(" ; ").map(|o| o.split(' ').next().unwrap_or("")).collect();
+            let n_ops = kinds.len();
+            kinds.sort();
+            kinds.dedup();
+            for k in kinds {
+                tags.push(format!("op:{}", k));
+            }
+            tags.push(if n_ops > 50 { "long".into() } else { "short".into() });
+            let outs: Vec<&str> = g.split(" ; ").collect();
+            let has = |f: &dyn Fn(&str) -> bool| outs.iter().any(|o| f(o));
+            if has(&|o| o == "oom") {
+                tags.push("out:oom".into());
+            }
+            if has(&|o| o == "io") {
+                tags.push("out:io".into());
+            }
+            if has(&|o| o.contains("ev=")) {
+                tags.push("out:evict".into());
+            }
+            if has(&|o| o.contains("ev=") && o.ends_with(":1")) {
+                tags.push("out:evict-dirty".into());
+            }
+            if has(&|o| o.starts_with("hit")) {
+                tags.push("out:hit".into());
+            }
+            if has(&|o| o == "miss") {
+                tags.push("out:miss".into());
+            }
+            if has(&|o| o == "rep") {
+                tags.push("out:replace".into());
+            }
+            if has(&|o| o == "nohandle") {
+                tags.push("out:nohandle".into());
+            }
+            if has(&|o| o == "eof") {
+                tags.push("out:eof".into());
+            }
+            let nontrivial = if kind == "seq" {
+                has(&|o| o.contains("ev=") || o == "oom" || (o.starts_with("clear [") && o != "clear []"))
+            } else {
+                // some page went to the file and was looked at again, or memory ran out
+                let allocs = outs.iter().filter(|o| o.starts_with('a')).count() as u64;
+                allocs > cap.max(1) || body.contains("flush") || body.contains("reopen") || has(&|o| o == "oom")
+            };
+            if nontrivial {
+                tags.push("nt".into());
+            }
+        }
+        "cfg" => {
+            tags.push("nt".into());
+            let cache: u64 = ws[2].parse().unwrap_or(0);
+            if cache >= 65536 {
+                tags.push("cache-over-u16".into());
+            }
+            if ws[4].parse::<u64>().unwrap_or(0) >= 256 || ws[5].parse::<u64>().unwrap_or(0) >= 256 {
+                tags.push("over-u8".into());
+            }
+        }
+        _ => {}
+    }
+    tags
+}
+
+impl Engine for CacheEngine {
+    fn gen_cases(&self, rng: &mut Rng, tier: Tier) -> Vec<Case> {
+        let scale = if tier == Tier::Thorough { 10 } else { 1 };
+        let mut lines: Vec<String> = Vec::new();
+        let mut r_seq = rng.fork("seq");
+        for _ in 0..(2500 * scale) {
+            lines.push(gen_seq(&mut r_seq));
+        }
+        let mut r_pgr = rng.fork("pgr");
+        for _ in 0..(1200 * scale) {
+            lines.push(gen_pgr(&mut r_pgr));
+        }
+        let mut r_cfg = rng.fork("cfg");
+        for _ in 0..(150 * scale) {
+            lines.push(gen_cfg(&mut r_cfg));
+        }
+        // tags describe what the case reaches on the real code (outcome classes), so they are measured, not guessed
+        let mut eng = CacheEngine;
+        lines
+            .into_iter()
+            .map(|line| {
+                let out = std::panic::catch_unwind(std::panic::AssertUnwindSafe(|| eng.exec(&line)))
+                    .unwrap_or_else(|_| "panic".into());
+                let tags = tags_of(&line, &out);
+                Case { line, tags }
+            })
+            .collect()
+    }
+
+    fn exec(&mut self, line: &str) -> String {
+        let ws: Vec<&str> = line.trim().split(' ').filter(|w| !w.is_empty()).collect();
+        match ws.as_slice() {
+            ["seq", cap, "|", rest @ ..] => {
+                let Some(cap) = num(cap) else { return "bad-op".into() };
+                let ops: Option<Vec<COp>> = split_ops(rest).iter().map(|o| parse_cop(o)).collect();
+                match ops {
+                    Some(ops) => exec_seq(cap, &ops),
+                    None => "bad-op".into(),
+                }
+            }
+            ["pgr", cap, ps, "|", rest @ ..] => {
+                let (Some(cap), Some(ps)) = (num(cap), num(ps)) else { return "bad-op".into() };
+                if ![4096, 8192, 16384, 32768, 65536].contains(&ps) || cap >= 65536 {
+                    return "bad-op".into();
+                }
+                let ops: Option<Vec<POp>> = split_ops(rest).iter().map(|o| parse_pop(o)).collect();
+                match ops {
+                    Some(ops) => exec_pgr(cap, ps, &ops),
+                    None => "bad-op".into(),
+                }
+            }
+            ["cfg", a, b, c, d, e] => match (num(a), num(b), num(c), num(d), num(e)) {
+                (Some(a), Some(b), Some(c), Some(d), Some(e)) => exec_cfg(a, b, c, d, e),
+                _ => "bad-op".into(),
+            },
+            _ => "bad-op".into(),
+        }
+    }
+
+    fn timeout_ms(&self) -> u64 {
+        60_000
     }
 }
 
 /// Content of `lean/AxVerif/Generated/<Engine>.lean`, if this engine extracts constants from the code.
 pub fn generated() -> Option<(&'static str, String)> {
-    None
+    let c = vc::config_constants();
+    let s = format!(
+        "/- REGENERATED on every run by `axh extract` from values evaluated out of /repo. Do not edit. -/\n\
+         namespace AxVerif.Generated\n\n\
+         /-- MIN_PAGE_SIZE, MAX_PAGE_SIZE, DEFAULT_CACHE_SIZE, and page size / min keys / siblings of `DBConfig::default()` -/\n\
+         def cacheConsts : List Nat := [{}, {}, {}, {}, {}, {}]\n\n\
+         end AxVerif.Generated\n",
+        c[0], c[1], c[2], c[3], c[4], c[5]
+    );
+    Some(("Cache.lean", s))
 }
